@@ -1145,12 +1145,19 @@ def evaluate(ctx, st, problems, runs, results):
         if info.get('relpg_strict', 1.0) > 1e-4:
             skipped += 1
             continue
-        bk = run['tags'].get('bounds_kind')
-        g = run['tags'].get('group')
-        # the algorithms that do not receive the bounds solve the unconstrained problem; with no / inactive bounds this is
-        # the same problem (concave L: a stationary point inside the box is the maximum over the box and over R^n)
-        cls = 'all' if bk in ('none', 'inactive') else ('box' if run['algorithm'] in SUPPORTS_BOUNDS else 'free')
-        groups.setdefault((g, cls), []).append(i)
+        # same problem = same data and model, same declared bounds, same values of the fixed parameters
+        g = (run['pid'], tuple(sorted((q['name'], q['lb'], q['ub'], q['init'] if q['fixed'] else None) for q in run['params'])))
+        x_ = dict(zip(results[i]['betaNames'], info['x']))
+        inside = all((q['lb'] is None or h2f(q['lb']) < x_[q['name']]) and (q['ub'] is None or x_[q['name']] < h2f(q['ub']))
+                     for q in run['params'] if not q['fixed'])
+        # the algorithms that receive the bounds solve the problem on the box; the others the unconstrained problem.  A
+        # stationary point strictly inside the box is a maximum of both (concave L), so such a run belongs to both classes
+        if run['algorithm'] in SUPPORTS_BOUNDS:
+            groups.setdefault((g, 'box'), []).append(i)
+            if inside:
+                groups.setdefault((g, 'free'), []).append(i)
+        else:
+            groups.setdefault((g, 'free'), []).append(i)
     worst = 0.0
     for (g, cls), idxs in groups.items():
         if len(idxs) < 2:
